@@ -409,3 +409,200 @@ Qed.
 
 End One.
 End Related.
+
+(* ================= the model on "//authority..." ================= *)
+Section AuthClass.
+Variable dbg : bool.
+Variable hp hpo : list N -> result host.
+Variable hd : host -> list N.
+Variable ovr : option (list N -> list N).
+Variable shp : bool -> list N -> option spec_host.
+Variable shs : spec_host -> list N.
+
+Lemma pqf_norm st se s l :
+  parse_query_and_fragment ovr CUrlParser st se s (drop_while is_tnl l) = parse_query_and_fragment ovr CUrlParser st se s l.
+Proof. unfold parse_query_and_fragment. rewrite inp_next_drop. reflexivity. Qed.
+
+Lemma pqf_oob (P : Prop) st se s l : usv_list l ->
+  query_enc ovr (nfirstn se (s ++ [63])) = utf8_encode ->
+  match ntnl l with [] => True | c :: _ => is_qh c = true end ->
+  (U32_MAX_P < nlen (s ++ qf_text (pqf_q st l) (pqf_f l)) -> P) ->
+  oob P (parse_query_and_fragment ovr CUrlParser st se s l)
+      (s ++ qf_text (pqf_q st l) (pqf_f l), qf_qs (nlen s) (pqf_q st l), qf_fs (nlen s) (pqf_q st l) (pqf_f l)).
+Proof.
+  intros Hu Henc Hh HP.
+  assert (match drop_while is_tnl l with [] => True | c :: _ => C02_Parts.is_qh c = true /\ is_tnl c = false end) as Hhead.
+  { pose proof (drop_head l) as Hd. pose proof (ntnl_drop l) as Hn.
+    destruct (drop_while is_tnl l) as [|d dr]; [exact I|]. rewrite ntnl_cons in Hn by exact Hd.
+    rewrite <- Hn in Hh. split; [exact Hh | exact Hd]. }
+  pose proof (C01_EqOpaque.pqf_total ovr st se s (drop_while is_tnl l) Hhead) as Tot. rewrite pqf_norm in Tot.
+  destruct (parse_query_and_fragment ovr CUrlParser st se s l) as [[[s' qs] fs]|e|] eqn:E.
+  - right. destruct (pqf_out ovr st se s l s' qs fs Hu Henc E) as (-> & -> & -> & _). reflexivity.
+  - assert (e = Overflow) as -> by (destruct Tot as [K|[r K]]; [inversion K; reflexivity | discriminate K]).
+    left. split; [reflexivity|]. apply HP. exact (pqf_overflow ovr st se s l Hu Henc E).
+  - exfalso. destruct Tot as [K|[r K]]; discriminate K.
+Qed.
+
+Lemma pqf_q_clean l : usv_list l -> opt_clean T_QUERY (pqf_q STNotSpecial l).
+Proof.
+  intros Hu. unfold pqf_q. destruct (inp_next l) as [[c r]|] eqn:En; [|exact I].
+  destruct (c =? 63); [|exact I]. cbn [opt_clean]. apply (query_of_clean STNotSpecial). exact (inp_next_usv l c r Hu En).
+Qed.
+
+Lemma wqf_auth sch ue hs he hi po ps tl rest : nlen sch + 3 <= ps ->
+  with_query_and_fragment ovr CUrlParser STNotSpecial (nlen sch) ue hs he hi po ps (auth_s0 sch ++ tl) rest
+  = (' (s2, qs, fs) <~ parse_query_and_fragment ovr CUrlParser STNotSpecial (nlen sch) (auth_s0 sch ++ tl) rest ;;
+     POk (mkUrl s2 (nlen sch) ue hs he hi po ps qs fs)).
+Proof.
+  intros H. unfold with_query_and_fragment.
+  replace (ps =? nlen sch + 1) with false by lia.
+  assert ((ps =? nlen sch + 3) && list_eqb (nfirstn (ps - nlen sch) (nskipn (nlen sch) (auth_s0 sch ++ tl))) [58; 47; 46] = false) as ->.
+  { destruct (ps =? nlen sch + 3) eqn:E; [|reflexivity]. cbn [andb]. apply N.eqb_eq in E. rewrite E.
+    replace (nlen sch + 3 - nlen sch) with 3 by lia. unfold auth_s0. rewrite <- !app_assoc. rewrite nskipn_app_len. reflexivity. }
+  cbn [pbind]. reflexivity.
+Qed.
+
+Lemma hi_none_iff h : hi_of_host h = HI_None <-> h = HDomain [].
+Proof. destruct h as [[|a b]| |]; cbn; split; intros H; try reflexivity; try discriminate H. Qed.
+
+Lemma hs_host_empty HR : hs_host false HR = [] -> port_split (hs_rest false HR) = None -> starts_ae HR = true.
+Proof.
+  destruct HR as [|c r]; [reflexivity|]. cbn [hs_host hs_rest starts_ae]. destruct (hs_stop false c) eqn:E; [|discriminate].
+  intros _. cbn [port_split]. unfold hs_stop in E. cbn [negb] in E. rewrite andb_true_r in E.
+  destruct (c =? 58); [discriminate | intros _; exact E].
+Qed.
+
+Lemma starts_ae_host HR : starts_ae HR = true -> hs_host false HR = [] /\ hs_rest false HR = HR /\ port_split HR = None.
+Proof.
+  destruct HR as [|c r]; [intros _; repeat split|]. cbn [starts_ae hs_host hs_rest port_split]. intros H.
+  unfold hs_stop. rewrite H, orb_true_r. repeat split.
+  destruct (c =? 58) eqn:E; [|reflexivity]. apply N.eqb_eq in E. subst c. discriminate H.
+Qed.
+
+(* everything after parse_userinfo *)
+Theorem model_auth_cont sch l un pw rem HR :
+  usv_list l -> scheme_canon sch = true -> scheme_type_of sch = STNotSpecial ->
+  let ser0 := auth_s0 sch in
+  let u1 := mkSUrl sch un pw None None (SPList []) None None in
+  (forall P : Prop, (U32_MAX_P < nlen (ser0 ++ cred_text un pw) -> P) ->
+     oob P (parse_userinfo STNotSpecial ser0 l) (ser0 ++ cred_text un pw, nlen ser0 + nlen un, rem)) ->
+  ntnl rem = HR -> usv_list rem ->
+  host_agree hpo hd shp shs (hs_host false HR) ->
+  match port_split (hs_rest false HR) with
+  | Some PR => ((decimal_value (digits_of PR) <=? 65535) && starts_with_cp 92 (after_digits PR)) = false
+  | None => True
+  end ->
+  (match (match port_split (hs_rest false HR) with Some PR => after_digits PR | None => hs_rest false HR end) with
+   | c :: r => if c =? 47 then spath_ok r [] [] = true else True
+   | [] => True
+   end) ->
+  if negb (is_nil (cred_text un pw)) && starts_ae HR
+  then mfail (after_double_slash dbg hp hpo hd ovr CUrlParser STNotSpecial (nlen sch) (sch ++ [58]) l)
+  else match sauth_host shp u1 HR with
+       | None => mfail (after_double_slash dbg hp hpo hd ovr CUrlParser STNotSpecial (nlen sch) (sch ++ [58]) l)
+       | Some su =>
+           exists u, oob (U32_MAX_P < nlen (ser u))
+                         (after_double_slash dbg hp hpo hd ovr CUrlParser STNotSpecial (nlen sch) (sch ++ [58]) l) u
+                     /\ related dbg shs u su
+       end.
+Proof.
+  intros Hu Hcan Hns ser0 u1 HPU Hrem Hurem HA Hbs Hok.
+  assert (exists tl, ser0 ++ cred_text un pw = sch ++ tl) as Htl.
+  { exists ([58] ++ [47; 47] ++ cred_text un pw). unfold ser0, auth_s0. rewrite <- !app_assoc. reflexivity. }
+  pose proof (hp_spec hp hpo hd shp shs sch (ser0 ++ cred_text un pw) rem u1 Hurem Hns Htl eq_refl) as HP.
+  cbv zeta in HP. rewrite Hrem in HP. specialize (HP HA Hbs).
+  assert (Hads : forall X, after_double_slash dbg hp hpo hd ovr CUrlParser STNotSpecial (nlen sch) (sch ++ [58]) l = X ->
+                 after_double_slash dbg hp hpo hd ovr CUrlParser STNotSpecial (nlen sch) (sch ++ [58]) l = X) by (intros; assumption).
+  unfold after_double_slash. change ((sch ++ [58]) ++ [47; 47]) with ser0.
+  assert (negb (nlen ser0 =? nlen (ser0 ++ cred_text un pw)) = negb (is_nil (cred_text un pw))) as Eha.
+  { rewrite nlen_app. destruct (cred_text un pw) as [|a b]; cbn [is_nil].
+    - rewrite nlen_nil, N.add_0_r, N.eqb_refl. reflexivity.
+    - replace (nlen ser0 =? nlen ser0 + nlen (a :: b)) with false by (rewrite nlen_cons; lia). reflexivity. }
+  destruct (negb (is_nil (cred_text un pw)) && starts_ae HR) eqn:Ecase.
+  - (* credentials in front of an empty host *)
+    apply andb_true_iff in Ecase. destruct Ecase as [Ec Eae].
+    destruct (starts_ae_host HR Eae) as (Eh & Er & Eps).
+    unfold sauth_host in HP. rewrite Er, Eps, Eh in HP. unfold host_agree in HA. rewrite Eh in HA.
+    eapply mfail_bind2; [apply (HPU True); intros _; exact I|]. cbv beta iota.
+    eapply mfail_bind2 with (P := True); [apply oob_u32; intros _; exact I|].
+    destruct (host_parsing shp true []) as [sh|] eqn:Esh.
+    + destruct HP as (host & sh' & port & rem' & Ehpo & _ & _ & _ & _ & _ & _ & _ & HO).
+      rewrite Ehpo in HA. destruct HA as (_ & _ & Hemp & _).
+      assert (host = HDomain []) as -> by (apply Hemp; reflexivity).
+      eapply mfail_bind2; [apply (HO True); intros _; exact I|]. cbv beta iota.
+      cbn [hi_of_host hi_eqb andb]. rewrite Eha, Ec. exists EmptyHost. reflexivity.
+    + apply mfail_bind. exact HP.
+  - destruct (sauth_host shp u1 HR) as [su|] eqn:Esu.
+    2:{ eapply mfail_bind2; [apply (HPU True); intros _; exact I|]. cbv beta iota.
+        eapply mfail_bind2 with (P := True); [apply oob_u32; intros _; exact I|]. apply mfail_bind. exact HP. }
+    destruct HP as (host & sh & port & rem' & Ehpo & Eshp & Hhp & Hpo & Hrem' & Hurem' & HXae & Esu' & HO).
+    unfold host_agree in HA. rewrite Ehpo, Eshp in HA. destruct HA as (Htxt & Hcol & Hemp & Hemp2).
+    set (X := match port_split (hs_rest false HR) with Some PR => after_digits PR | None => hs_rest false HR end) in *.
+    rewrite <- Hrem' in Hok, HXae.
+    destruct (path_start_spec dbg rem' (((ser0 ++ cred_text un pw) ++ hd host) ++ port_suffix port) true Hurem' HXae Hok)
+      as (segs & rest & Eps & Hurest & Hpt & Hnsl & Htail & Hresth).
+    set (q := pqf_q STNotSpecial rest). set (f := pqf_f rest).
+    exists (auth_url sch un pw (hd host) (hi_of_host host) port (flat_map (fun s => 47 :: s) segs) q f).
+    (* the host check of after_double_slash passes *)
+    assert (hi_eqb (hi_of_host host) HI_None && negb (nlen ser0 =? nlen (ser0 ++ cred_text un pw)) = false) as Echk.
+    { rewrite Eha. destruct (is_nil (cred_text un pw)) eqn:Ec; cbn [negb]; [apply andb_false_r|].
+      cbn [negb andb] in Ecase.
+      assert (host <> HDomain []) as Hne.
+      { intros Hh. apply Hemp in Hh. unfold sauth_host in Esu. rewrite Hh in Esu.
+        destruct (port_split (hs_rest false HR)) eqn:Eps2; [discriminate Esu|].
+        rewrite (hs_host_empty HR Hh Eps2) in Ecase. discriminate Ecase. }
+      destruct (hi_of_host host) eqn:Ehi; try reflexivity. exfalso. apply Hne. apply hi_none_iff. exact Ehi. }
+    split.
+    + (* the model: the canonical record, or Overflow with a serialization beyond u32 *)
+      set (U := auth_url sch un pw (hd host) (hi_of_host host) port (flat_map (fun s => 47 :: s) segs) q f).
+      assert (forall pre, (exists tl, ser U = pre ++ tl) -> U32_MAX_P < nlen pre -> U32_MAX_P < nlen (ser U)) as Hpre.
+      { intros pre [tl ->] Hlt. rewrite nlen_app. lia. }
+      eapply oob_bind.
+      { apply HPU. apply Hpre. unfold U, auth_url. cbn [ser]. fold ser0.
+        eexists. repeat rewrite <- app_assoc. reflexivity. }
+      cbv beta iota.
+      eapply oob_bind.
+      { apply oob_u32. apply Hpre. unfold U, auth_url. cbn [ser]. fold ser0.
+        eexists. repeat rewrite <- app_assoc. reflexivity. }
+      eapply oob_bind.
+      { apply HO. apply Hpre. unfold U, auth_url. cbn [ser]. fold ser0.
+        eexists. repeat rewrite <- app_assoc. reflexivity. }
+      cbv beta iota. rewrite Echk.
+      eapply oob_bind.
+      { apply oob_u32. apply Hpre. unfold U, auth_url. cbn [ser]. fold ser0.
+        eexists. repeat rewrite <- app_assoc. reflexivity. }
+      rewrite Eps. cbn [pbind].
+      replace ((((ser0 ++ cred_text un pw) ++ hd host) ++ port_suffix port) ++ flat_map (fun s => 47 :: s) segs)
+        with (auth_s0 sch ++ (cred_text un pw ++ hd host ++ port_suffix port ++ flat_map (fun s => 47 :: s) segs))
+        by (fold ser0; repeat rewrite <- app_assoc; reflexivity).
+      rewrite wqf_auth by (unfold ser0, auth_s0, nlen; repeat rewrite app_length; cbn [length]; lia).
+      eapply oob_bind.
+      { apply (pqf_oob (U32_MAX_P < nlen (ser U))); [exact Hurest | | exact Hresth |].
+        - unfold auth_s0. repeat rewrite <- app_assoc. rewrite nfirstn_app_len. apply query_enc_nonspecial. exact Hns.
+        - fold q f. intros Hlt. unfold U, auth_url. cbn [ser]. fold ser0.
+          replace (((((ser0 ++ cred_text un pw) ++ hd host) ++ port_suffix port) ++ flat_map (fun s => 47 :: s) segs) ++ qf_text q f)
+            with ((auth_s0 sch ++ cred_text un pw ++ hd host ++ port_suffix port ++ flat_map (fun s => 47 :: s) segs) ++ qf_text q f)
+            by (fold ser0; repeat rewrite <- app_assoc; reflexivity).
+          exact Hlt. }
+      fold q f. right. unfold U, auth_url. fold ser0.
+      assert (ser0 ++ cred_text un pw ++ hd host ++ port_suffix port ++ flat_map (fun s => 47 :: s) segs
+              = (((ser0 ++ cred_text un pw) ++ hd host) ++ port_suffix port) ++ flat_map (fun s => 47 :: s) segs) as ->
+        by (repeat rewrite <- app_assoc; reflexivity).
+      reflexivity.
+    + (* related to the Standard's record *)
+      assert (su = spec_auth_url sch un pw sh port segs q f) as ->.
+      { rewrite Esu'. rewrite <- Hrem'. rewrite Htail; [reflexivity | reflexivity | | reflexivity | reflexivity].
+        unfold is_special. cbn [su_scheme set_port set_host u1]. rewrite <- special_schemes_are_the_standards, Hns. reflexivity. }
+      apply related_auth. constructor.
+      * exact Hcan.
+      * exact Hns.
+      * exact Htxt.
+      * exact Hcol.
+      * intros Hh. apply Hemp2. apply Hemp. apply hi_none_iff. exact Hh.
+      * intros Hh. apply Hhp. apply Hemp2. exact Hh.
+      * exact Hpo.
+      * exact Hpt.
+      * apply pqf_q_clean. exact Hurest.
+Qed.
+
+End AuthClass.
